@@ -1,5 +1,6 @@
 (** C01 — Node resources are never oversubscribed by scheduling decisions.
-    Statements only; proofs in Proofs/Admissible.v, Proofs/Node.v, Proofs/CycleSafe.v and Proofs/Snapshot.v.
+    Statements only; proofs in Proofs/Admissible.v, Proofs/Node.v, Proofs/CycleSafe.v, Proofs/Snapshot.v,
+    Proofs/PodRequest.v and Proofs/PodRequestBind.v.
     The node model (Model/Node.v) is tied to the real NodeInfo by the C14
     correspondence check and to real scheduling cycles by the cycle-level
     refinement check (Run/Cycle.v: every real Bind / Evict / TaskPipelined is an
@@ -7,7 +8,8 @@
     model's). *)
 From Coq Require Import List ZArith PArith Bool.
 From KaiV Require Import Model.Res Model.Status Model.AMap Model.Node Model.NodeSpec Proofs.Node Proofs.Admissible
-     Run.NodeObs Run.Cycle Run.C01 Proofs.CycleSafe Model.Snapshot Proofs.Snapshot.
+     Run.NodeObs Run.Cycle Run.C01 Proofs.CycleSafe Model.Snapshot Proofs.Snapshot
+     Model.PodRequest Proofs.PodRequest Proofs.PodRequestBind.
 Import ListNotations.
 Open Scope Z_scope.
 
@@ -234,3 +236,104 @@ Theorem C01_nonvacuous :
   /\ cpu (occupying_demand (run ex_node ex_ops)) = 4000.
 Proof. repeat split; vm_compute; reflexivity. Qed.
 Print Assumptions C01_nonvacuous.
+
+(** * What a pod requests (Model/PodRequest.v)
+
+    "Requested by the pods" is the request Kubernetes holds the node to: per resource
+    max (sum of the regular containers, largest init container) + overhead. [pod_request] is that rule and the model
+    of pod_info.getPodResourceRequest (compared with the real NewTaskInfo and with the upstream
+    k8s.io/component-helpers/resource.PodRequests on generated pod specs on every run, case kind FRequest).
+
+    For ALL pods, resources and stages of the pod's life - the i-th init container running alone, or all regular
+    containers running together, the sandbox overhead held throughout - booking [pod_request] covers what the pod
+    holds: *)
+Theorem C01_request_covers_every_stage :
+  forall (p : podspec) (s : pstage) (k : rkind), proj k (demand_at p s) <= proj k (pod_request p).
+Proof. exact request_covers_every_stage. Qed.
+Print Assumptions C01_request_covers_every_stage.
+
+(** spelled out: every init container alone plus the overhead, and all regular containers plus the overhead *)
+Theorem C01_request_covers_init_and_run :
+  forall (p : podspec) (k : rkind),
+    (forall c, In c (ps_inits p) -> proj k c + proj k (ps_overhead p) <= proj k (pod_request p))
+    /\ proj k (rsum (ps_conts p)) + proj k (ps_overhead p) <= proj k (pod_request p).
+Proof. intros p k. split; [intros c; apply request_covers_init|apply request_covers_run]. Qed.
+Print Assumptions C01_request_covers_init_and_run.
+
+(** ... and it is the least booking that does: anything that covers every stage is at least [pod_request] *)
+Theorem C01_request_is_least :
+  forall (p : podspec) (r : res) (k : rkind),
+    (forall s, proj k (demand_at p s) <= proj k r) -> proj k (pod_request p) <= proj k r.
+Proof. exact request_is_least_over_stages. Qed.
+Print Assumptions C01_request_is_least.
+
+(** Adding the overhead to the containers BEFORE taking the maximum with the init containers
+    ([early_overhead_request]) reads, per resource, exactly min (overhead, largest init - sum of containers) less,
+    when that is positive: *)
+Theorem C01_overhead_before_max_deficit :
+  forall (p : podspec) (k : rkind),
+    spec_nonneg p ->
+    proj k (pod_request p) - proj k (early_overhead_request p)
+    = Z.max 0 (Z.min (proj k (ps_overhead p)) (max_init k p - proj k (rsum (ps_conts p)))).
+Proof. exact early_overhead_deficit. Qed.
+Print Assumptions C01_overhead_before_max_deficit.
+
+(** so it never reads more, and reads strictly less exactly for the pods with an overhead in the resource AND an init
+    container above the sum of the regular containers *)
+Theorem C01_overhead_before_max_never_above :
+  forall (p : podspec) (k : rkind),
+    spec_nonneg p -> proj k (early_overhead_request p) <= proj k (pod_request p).
+Proof. exact early_overhead_never_above. Qed.
+Print Assumptions C01_overhead_before_max_never_above.
+
+Theorem C01_overhead_before_max_under_reads_iff :
+  forall (p : podspec) (k : rkind),
+    spec_nonneg p ->
+    (proj k (early_overhead_request p) < proj k (pod_request p)
+     <-> 0 < proj k (ps_overhead p) /\ proj k (rsum (ps_conts p)) < max_init k p).
+Proof. exact early_overhead_under_reads_iff. Qed.
+Print Assumptions C01_overhead_before_max_under_reads_iff.
+
+(** witness (the pod of seeded/C01-5: container 500m / 512Mi, init container 1500m / 1536Mi, overhead 500m / 512Mi):
+    requested 2000m / 2Gi, read as 1500m / 1.5Gi; on a 6-core / 6Gi node with three such pods booked in the smaller
+    units the fourth still passes LessEqual on the idle amount, and the four request 8 cores / 8Gi; in [booked]
+    units the fourth is refused *)
+Theorem C01_overhead_before_max_readme_witness :
+  pod_request readme_pod = mkRes 2000 2147483648 0 0 0 0
+  /\ early_overhead_request readme_pod = mkRes 1500 1610612736 0 0 0 0
+  /\ (let node := mkRes 6000 6442450944 0 110 0 0 in
+      let idle3 := rsub node (rsum (repeat (radd (early_overhead_request readme_pod) one_pod_slot) 3)) in
+      rle (radd (early_overhead_request readme_pod) one_pod_slot) idle3 = true
+      /\ cpu node < cpu (rsum (repeat (booked readme_pod) 4))
+      /\ mem node < mem (rsum (repeat (booked readme_pod) 4))
+      /\ rle (booked readme_pod) (rsub node (rsum (repeat (booked readme_pod) 3))) = false).
+Proof. exact readme_witness. Qed.
+Print Assumptions C01_overhead_before_max_readme_witness.
+
+(** The upstream aggregation with restartable init containers ([k8s_request]: AggregateContainerRequests, the
+    reference side of the FRequest cases) is [pod_request] when the pod has no sidecar. With sidecars the scheduler's
+    reading differs (known finding C01-sidecar-init-containers-under-read, flag 7 of Run/C01.v). *)
+Theorem C01_kubernetes_rule_without_sidecars :
+  forall p : podspec,
+    Forall res_nonneg (ps_conts p) ->
+    k8s_request (ps_conts p) (map (pair false) (ps_inits p)) (ps_overhead p) = pod_request p.
+Proof. exact k8s_request_no_sidecar. Qed.
+Print Assumptions C01_kubernetes_rule_without_sidecars.
+
+(** Link with the bind guard (C01_bind_on_snapshot_within_allocatable): when the books are kept in [booked] units -
+    the charge of every occupying pod and of the pod being bound is its [pod_request] plus the pod slot - a Bind
+    that passes the scheduler's guard on the snapshot node never oversubscribes the node in Kubernetes' terms:
+    WHATEVER stage each pod on the node is in ([st] arbitrary), what the occupying pods and the bound pod hold
+    together stays within the allocatable CPU, memory, MIG instances and extended resources. *)
+Theorem C01_bind_in_request_units_covers_every_stage :
+  forall (w : world) (nid : positive) (n0 : node) (t : task) (gs : list positive)
+         (spec : task -> podspec) (st : task -> pstage),
+    WorldWf w -> alookup nid (w_nodes w) = Some n0 -> wf_req t ->
+    let n := snap_node false w nid n0 in
+    NonNegIdle n -> bind_guard n t gs = true ->
+    (forall x k, In x (t :: occupants w nid) -> In k [KCpu; KMem; KMig; KExt] ->
+                 proj k (charge x) = proj k (booked (spec x))) ->
+    let held := rsum (map (fun x => demand_at (spec x) (st x)) (t :: occupants w nid)) in
+    forall k, In k [KCpu; KMem; KMig; KExt] -> proj k held <= proj k (n_alloc n0).
+Proof. exact bind_in_request_units_covers_every_stage. Qed.
+Print Assumptions C01_bind_in_request_units_covers_every_stage.
